@@ -274,6 +274,8 @@ func streamJSON(o *Out, rng *rand.Rand, thorough bool, _ []string) {
 			kids = []*Node{i64n("a", 1<<40+k), dbl("f", uint64(0x4024000000000000+k)), {Key: "s", Tag: 0x02, Raw: append(u32(2), 'x', 0)}, {Key: "ok", Tag: 0x08, Raw: []byte{byte(k & 1)}}}
 		case 1:
 			kids = []*Node{i64n("a", 1<<41+k), sub("n", i64n("x", 1<<42+k), i64n("y", 1<<43-k))}
+		case 3: // schema 1 with the fields of its sub-document in the other order
+			kids = []*Node{i64n("a", 1<<41+k), sub("n", i64n("y", 1<<43-k), i64n("x", 1<<42+k))}
 		default:
 			kids = []*Node{i64n("b", 1<<44-k), i64n("c", 1<<45+k), i64n("d", 1<<46+k)}
 		}
@@ -286,14 +288,17 @@ func streamJSON(o *Out, rng *rand.Rand, thorough bool, _ []string) {
 	for i := 0; i < n; i++ {
 		L := 1 + rng.Intn(14)
 		var toks []string
-		schema := rng.Intn(3)
+		schema := rng.Intn(4)
 		bad := -1
 		if rng.Intn(3) == 0 {
 			bad = rng.Intn(L)
 		}
 		for k := 0; k < L; k++ {
 			if rng.Intn(6) == 0 {
-				schema = rng.Intn(3) // schema change
+				schema = rng.Intn(4) // schema change
+			}
+			if (schema == 1 || schema == 3) && rng.Intn(3) == 0 {
+				schema = 4 - schema // the same fields, the sub-document's in the other order
 			}
 			tok := hx(mkDoc(schema, int64(k)))
 			if k == bad {
